@@ -401,6 +401,50 @@ Definition scan (toks : list ftok) : scan_result :=
 (* fastscan.Scan on the bytes of a file; None = out of fuel *)
 Definition fast_scan (data : list N) : option scan_result := option_map scan (fast_lex data).
 
+(* ---- one string literal in both lexers (what Proofs/FastScan.v relates) ----
+   The input is what follows the opening quote.  full_decode: the full lexer (Model/Lexer.v,
+   scan_string as dispatch calls it) returns a string token: its value and the number of bytes
+   consumed up to and including the closing quote; None = the full lexer reports an error. *)
+Definition sstate0 : sstate := {| s_buf := []; s_pend := None; s_flushed := [] |}.
+
+Definition full_decode (quote : N) (rest : list N) : option (list N * nat) :=
+  match scan_string (S (length rest)) quote 1 rest sstate0 with
+  | SDone endpos st =>
+    match s_pend st with
+    | None => Some (s_buf st, (endpos - 1)%nat)
+    | Some _ => None
+    end
+  | _ => None
+  end.
+
+(* the fast lexer: value and remaining input; None = out of fuel *)
+Definition fast_decode (quote : N) (rest : list N) : option (list N * list N) :=
+  fstring (S (length rest)) quote rest.
+
+(* ---- the tokens of the full lexer as the fast lexer should see them ----
+   what one item of the full lexer (Model/Lexer.v) is for the scanner: comments and the EOF token
+   are nothing, names and numbers are their raw text, a string is its decoded value, a symbol is
+   its rune.  [rest] is the input from the item's offset on. *)
+Definition ftok_local (rest : list N) (it : item) : option ftok :=
+  match i_kind it with
+  | IComment _ => None
+  | IToken TEof => None
+  | IToken TName => Some (mkt t_ident (firstn (i_len it) rest))
+  | IToken (TInt _) => Some (mkt t_number (firstn (i_len it) rest))
+  | IToken TFloat => Some (mkt t_number (firstn (i_len it) rest))
+  | IToken (TStr s) => Some (mkt t_string s)
+  | IToken (TRune c) => Some (mkt c [])
+  end.
+
+Definition ftok_of_item (d : list N) (it : item) : list ftok :=
+  match ftok_local (skipn (i_off it) d) it with
+  | Some t => [t]
+  | None => []
+  end.
+
+Definition ftoks_of_items (d : list N) (items : list item) : list ftok :=
+  flat_map (ftok_of_item d) items.
+
 (* ---- the abstract top-level grammar of Proofs/FastScan.v: what a file is made of ---- *)
 Inductive imod := MNone | MPublic | MWeak | MOption.
 
